@@ -6,11 +6,11 @@ WT=/tmp/wt-$P; S=${SEEDROOT:-/tmp/seed}-$P/$V
 set -e
 git -C $WT checkout -q -- . ; git -C $WT status --short | grep -v '^??' && { echo "worktree dirty"; exit 1; }
 cd $WT
-echo "== demo on clean tree"; PYTHONPATH=$WT/src timeout 600 /venv/bin/python $S/demo.py > /tmp/demo_clean.log 2>&1 && echo "clean: exit 0" || { echo "clean: FAILS"; tail -5 /tmp/demo_clean.log; }
+echo "== demo on clean tree"; PYTHONPATH=$WT/src timeout 600 /venv/bin/python $S/demo.py > /tmp/demo_clean_$P$V.log 2>&1 && echo "clean: exit 0" || { echo "clean: FAILS"; tail -5 /tmp/demo_clean_$P$V.log; }
 git -C $WT apply --check $S/patch.diff
 git -C $WT apply $S/patch.diff
 if git -C $WT diff --name-only | grep -q extension.pyx; then (cd $WT && /venv/bin/python setup.py build_ext --inplace >/dev/null 2>&1; rm -rf build); fi
-echo "== demo with change"; PYTHONPATH=$WT/src timeout 600 /venv/bin/python $S/demo.py > /tmp/demo_patched.log 2>&1 && echo "patched: exit 0 (NOT FAILING)" || { echo "patched: fails as expected:"; tail -3 /tmp/demo_patched.log | cut -c1-300; }
+echo "== demo with change"; PYTHONPATH=$WT/src timeout 600 /venv/bin/python $S/demo.py > /tmp/demo_patched_$P$V.log 2>&1 && echo "patched: exit 0 (NOT FAILING)" || { echo "patched: fails as expected:"; tail -3 /tmp/demo_patched_$P$V.log | cut -c1-300; }
 echo "== tests with change: $TESTS"; PYTHONPATH=$WT/src timeout 3000 /venv/bin/python -m pytest -q -p no:cacheprovider -n 8 $TESTS 2>&1 | grep -E "^FAILED|passed|failed" | tail -12
 git -C $WT checkout -q -- .
 if [ -n "$(git -C $WT diff --name-only)" ]; then echo dirty; fi
